@@ -532,7 +532,28 @@ def rule_explicit_zero(ctx: Ctx, rep: Report) -> None:
     rep.floor(rule, 8)
 
 
+def rule_explicit_default_byte(ctx: Ctx, rep: Report) -> None:
+    """C09.explicit_default_byte: BIP341's message for hash type 0 is defined for a
+    64-byte signature only: a 65-byte signature whose last byte is 0x00 names
+    SIGHASH_DEFAULT explicitly and is invalid ("hash_type 0x00 ... results in
+    failure"). get_hashtype, through which every taproot signature's hash type
+    is read, refuses a zero last byte on the 65-byte path -- the membership
+    test in the seven defined types does not, 0 being one of them."""
+    from sa.ranges import refusal_constraints
+    rule = "C09.explicit_default_byte"
+    gh = ctx.func("btclib.script.engine.tapscript.get_hashtype")
+    cs = refusal_constraints(ctx, gh)
+    g = ctx.cfg(gh)
+    p0 = gh.params()[0]
+    z = [c for c in cs if c.op == "==" and c.value == 0 and not c.from_fact]
+    ok = bool(z) and any(str(t).replace(" ", "") == f"len({p0})==65" and pol for t, pol in g.facts_at_ast(z[0].node))
+    rep.ob(rule, "get_hashtype:65_bytes_ending_00", ok, gh.where(), "a 65-byte signature whose hash type byte is 0 is refused" if ok else
+           f"no refusal of a zero hash type byte on the 65-byte path (refusals: {[c.show() for c in cs][:5]}): an explicit SIGHASH_DEFAULT is hashed as if it were the 64-byte form")
+    rep.floor(rule, 1)
+
+
 RULES = [
+    ("C09.explicit_default_byte", rule_explicit_default_byte),
     ("C09.explicit_zero", rule_explicit_zero),
     ("C09.params_forwarded", rule_params_forwarded_),
     ("C09.own_fields", rule_own_fields),
